@@ -269,7 +269,7 @@ type c18Fb struct {
 func c18NewFb(spec ttyCons) (*c18Fb, error) {
 	d := &c18Fb{spec: spec, w: int(spec.W), h: int(spec.H), glyphs: map[ttyCell][]byte{}}
 	d.bpx = c18BytesPerPixel(spec.Bpp)
-	if d.bpx == 0 || spec.Font < 0 || spec.Font >= len(ttyFontNames) || spec.W < 1 || spec.H < 1 || spec.W > 640 || spec.H > 60 || (spec.W > 100 && spec.H > 3) {
+	if d.bpx == 0 || spec.Font < 0 || spec.Font >= len(ttyFontNames) || spec.W < 1 || spec.H < 1 || spec.W > 640 || spec.H > 300 || (spec.W > 100 && spec.H > 3) || (spec.H > 60 && spec.W > 3) {
 		return nil, fmt.Errorf("framebuffer description outside the generated domain: %+v", spec)
 	}
 	d.fnt = font.FindByName(ttyFontNames[spec.Font])
@@ -871,6 +871,11 @@ func c18GenFb(t *rapid.T) ttyCons {
 		// a real screen's worth of columns (scanlines of more than 4 KiB), few lines
 		c.W = uint32(rapid.SampledFrom([]int{128, 170, 171, 180, 240, 256, 257, 320, 512, 513}).Draw(t, "widecols"))
 		c.H = uint32(rapid.IntRange(1, 3).Draw(t, "widerows"))
+	}
+	if !wide && rapid.IntRange(0, 39).Draw(t, "tallscreen") == 0 {
+		// a portrait screen's worth of text rows, few columns
+		c.H = uint32(rapid.SampledFrom([]int{127, 128, 129, 130, 200, 256, 257}).Draw(t, "tallrows"))
+		c.W = uint32(rapid.IntRange(1, 3).Draw(t, "tallcols"))
 	}
 	// rapid favours small indices: rotate so that every depth / font gets its share
 	depths := []uint8{8, 15, 16, 24, 32}
